@@ -42,6 +42,8 @@ SCOPE = {"quick": "th: 701 datasets (n<=3,m<=2) x 8 schemes + 6000 sampled (n<=6
          "thorough": "th: 701 datasets x 25 schemes + 60000 sampled (n<=7) with 400 grid schemes; "
                      "alg: 72 mixed-name cases + 30000 sampled (dataset n<=7, scheme) pairs x 20-21 runs, ExactPulp on 1/3"}
 CHUNK = 4
+# every 8th case is run a second time with its datasets reached through a history (vlib.t2run._with_histories)
+VIA_EVERY = {"quick": 8, "thorough": 8}
 TIMEOUT = 300
 ASSUMPTIONS = ["cplex stand-in: /verif/bounded/standin_cplex.py replaces the proprietary cplex module (complete 0/1 "
                "enumeration / CBC on the rows the repository builds); results say nothing about CPLEX itself",
